@@ -306,7 +306,9 @@ def doc_criterion(name, Q, gamma, x, xh, g, gh, yh):
         if nn == 0:
             return float(err), err, False
         w = [vk[i] - pc[i] for i in range(n)]
-        sd = max(F(100), (sum(abs(a) for a in yh) + sum(abs(a) for a in w)) / nn) / 100
+        D = sum(abs(a) for a in yh) + sum(abs(a) for a in w)
+        sd = max(F(100), D / nn) / 100
+        doc_criterion.ipopt = (D, nn)            # for the tolerance of the scaling factor (cancellation in w)
         return float(err / sd), err, False
     raise ValueError(name)
 
@@ -314,6 +316,12 @@ def doc_criterion(name, Q, gamma, x, xh, g, gh, yh):
 def _ulp(*mags):
     m = max([abs(float(a)) for a in mags if math.isfinite(float(a))] + [0.0])
     return math.ulp(m) if m > 0 else 5e-324
+
+
+KEY_RECOMP_PANOC = 'C05-recompute-reports-stale-psi-hat'
+KEY_RECOMP_ZEROFPR = 'C05-zerofpr-recompute-reports-mixed-stepsize'
+KEY_EAGER_YHAT = 'C06-panoc-eager-workspace-as-yhat'
+KEY_OWNER = {KEY_RECOMP_PANOC: 'C05', KEY_RECOMP_ZEROFPR: 'C05', KEY_EAGER_YHAT: 'C06'}
 
 
 def consistency(flavor, op, cbs, **kw):
@@ -325,11 +333,17 @@ def consistency(flavor, op, cbs, **kw):
         return None
 
 
-def _consistency(flavor, op, cbs, *, bump=lambda k, n=1: None, rewritten=(), final_only_gh=False, crit=None,
-                 fixed_fista=False):
-    """Exact consistency of every callback of a PANOC / ZeroFPR / PANTR / FISTA run (layout of `solvers.parse_out`
-    field names).  `rewritten[k]`: callback k was rewritten by recompute_last_prox_step_… (its tuple mixes two
-    step sizes: reported with the finding's key).  → None | str | (str, key)"""
+def _consistency(flavor, op, cbs, *, pid=None, bump=lambda k, n=1: None, rewritten=(), final_only_gh=False,
+                 crit=None, fixed_fista=False):
+    """Exact consistency of every callback of a PANOC / ZeroFPR / PANTR / FISTA run (field names of
+    `solvers.parse_out`).  Mismatches that are an *open finding* carry its key:
+      rewritten[k] (callback k rewritten by recompute_last_prox_step_after_stepsize_change: the tuple mixes two
+      step sizes) → KEY_RECOMP_*;  PANOC eager_gradient_eval with a problem that uses the m-workspace of
+      eval_ψ_grad_ψ as scratch (`wmscratch`): ŷ, a ∇ψ(x̂) recomputed from it after an interrupted line search,
+      and the Ipopt / ApproxKKT ε computed from those → KEY_EAGER_YHAT.
+    Under a property that does not own the key the mismatch is counted and checking goes on; under the owner the
+    first keyed mismatch is returned after all callbacks were checked (an un-keyed one at once).
+    → None | str | (str, key)"""
     if not cbs:
         return None
     Q = ExactQ(op)
@@ -338,105 +352,225 @@ def _consistency(flavor, op, cbs, *, bump=lambda k, n=1: None, rewritten=(), fin
     crit = op.nat('crit', 0) if crit is None else crit
     cname = S.CRITS[crit]
     need_gh = cname in ('ApproxKKT', 'ApproxKKT2', 'Ipopt')
-    for k, cb in enumerate(cbs):
-        last = k == len(cbs) - 1
-        x, xh, p, g = cb['x'], cb['xhat'], cb['p'], cb['grad_psi']
-        gam = cb['gamma']
-        tag = f'callback {k} ({cb["status"]})'
-        if len(x) != n or len(xh) != n or len(p) != n or len(g) != n:
-            return f'{tag}: vector sizes {len(x)}, {len(xh)}, {len(p)}, {len(g)} ≠ n = {n}'
-        if not all(math.isfinite(a) for a in x) or not (math.isfinite(gam) and gam > 0):
-            bump('consistency_skipped_nonfinite_x_or_gamma')
-            continue
-        psi, grad, _, Mpsi, Mg, _ = Q.at(x)
-        if max([Mpsi] + Mg) > Fr(10) ** 300:
-            bump('consistency_skipped_overflow_range')
-            continue
-        rw = k < len(rewritten) and rewritten[k]
-        key = 'C05-recompute-reports-stale-psi-hat' if (rw and flavor == 'panoc') else \
-            ('C05-zerofpr-recompute-reports-mixed-stepsize' if (rw and flavor == 'zerofpr') else None)
+    eager_wm = flavor == 'panoc' and op.nat('eager', 0) != 0 and op.nat('wmscratch', 0) != 0
+    pending = []
 
-        def bad(msg):
-            return (f'{tag}: {msg}', key) if key else f'{tag}: {msg}'
-        # ---- ψ(x), ∇ψ(x) ------------------------------------------------------------------------------
-        v = cb['psi']
-        if v != v and (nan_inj or fixed_fista):
-            bump('psi_nan_injected_or_not_evaluated')
-        elif not math.isfinite(v) or abs(Fr(v) - psi) > Fr(REL) * Mpsi:
-            return bad(f'reported ψ = {v!r}, ψ at the reported x is {float(psi)!r}')
-        for i in range(n):
-            if not math.isfinite(g[i]) or abs(Fr(g[i]) - grad[i]) > Fr(REL) * Mg[i]:
-                return bad(f'reported ∇ψ[{i}] = {g[i]!r}, ∇ψ at the reported x is {float(grad[i])!r}')
-        bump('psi_grad_at_x_exact')
-        # ---- x̂ = prox_γ(x − γ∇ψ(x)), p = x̂ − x --------------------------------------------------------
-        X = S.frv(x)
-        G = Fr(gam)
-        xh_ex = Q.prox(G, X, grad)
-        if not all(math.isfinite(a) for a in xh + p):
-            return bad(f'x̂ / p not finite at finite x, γ (x̂={xh}, p={p})')
-        for i in range(n):
-            tol = 4 * Fr(_ulp(x[i], float(G * grad[i]), float(G * Q.lam[i]), Q.ex.Clb[i], Q.ex.Cub[i], xh[i])) \
-                + G * Fr(REL) * Mg[i]
-            if abs(Fr(xh[i]) - xh_ex[i]) > tol:
-                return bad(f'reported x̂[{i}] = {xh[i]!r}, but prox_γ(x − γ∇ψ(x))[{i}] = {float(xh_ex[i])!r} at the '
-                           f'reported x, γ = {gam!r} (tolerance {float(tol):.3g})')
-            if abs(Fr(p[i]) - (xh_ex[i] - X[i])) > tol:
-                return bad(f'reported p[{i}] = {p[i]!r}, but prox_γ(x − γ∇ψ(x))[{i}] − x[{i}] = '
-                           f'{float(xh_ex[i] - X[i])!r} at the reported x, γ = {gam!r} (tolerance {float(tol):.3g})')
-        bump('prox_step_exact')
-        # ---- ‖p‖², φγ --------------------------------------------------------------------------------
-        P = S.frv(p)
-        pTp = sum(a * a for a in P)
-        if not math.isfinite(cb['pTp']) or abs(Fr(cb['pTp']) - pTp) > 8 * (n + 4) * Fr(EPS) * pTp:
-            return bad(f'reported ‖p‖² = {cb["pTp"]!r}, the reported p has ‖p‖² = {float(pTp)!r}')
-        v = cb['fbe']
-        if v != v and (nan_inj or fixed_fista):
-            bump('fbe_nan_injected_or_not_evaluated')
-        else:
-            hx = Q.h(S.frv(xh))
-            gp = [Fr(g[i]) * P[i] for i in range(n)]
-            want = psi + hx + pTp / (2 * G) + sum(gp)
-            M = Mpsi + hx + pTp / (2 * G) + sum(abs(a) for a in gp)
-            if not math.isfinite(v) or abs(Fr(v) - want) > (Fr(REL) + 8 * (n + 4) * Fr(EPS)) * M:
-                return bad(f'reported φγ = {v!r}, but ψ(x) + h(x̂) + ‖p‖²/(2γ) + ∇ψ(x)ᵀp = {float(want)!r} '
-                           f'(ψ exact at the reported x, the other terms from the reported x̂, p, γ)')
-            bump('fbe_exact')
-        # ---- ψ(x̂), ŷ(x̂), ∇ψ(x̂) -------------------------------------------------------------------------
-        psih, gradh, yh_ex, Mpsih, Mgh, Myh = Q.at(xh)
-        if max([Mpsih] + Mgh) > Fr(10) ** 300:
-            bump('consistency_skipped_overflow_range')
-            continue
-        v = cb['psi_hat']
-        if v != v and (nan_inj or fixed_fista):
-            bump('psihat_nan_injected_or_not_evaluated')
-        elif not math.isfinite(v) or abs(Fr(v) - psih) > Fr(REL) * Mpsih:
-            return bad(f'reported ψ(x̂) = {v!r}, ψ at the reported x̂ is {float(psih)!r}')
-        else:
-            bump('psihat_exact')
-        yh = cb.get('yhat') or []
-        if len(yh) == Q.ex.m and Q.ex.m:
-            for j in range(Q.ex.m):
-                if not math.isfinite(yh[j]) or abs(Fr(yh[j]) - yh_ex[j]) > Fr(REL) * Myh[j]:
-                    return bad(f'reported ŷ[{j}] = {yh[j]!r}, ŷ at the reported x̂ is {float(yh_ex[j])!r}')
-            bump('yhat_exact')
-        gh = cb.get('grad_psi_hat') or []
-        check_gh = cb.get('have_gh') and len(gh) == n and (not final_only_gh or (last and need_gh))
-        if check_gh:
+    class Stop(Exception):
+        pass
+
+    def fail(k, cb, field, msg):
+        rw = k < len(rewritten) and rewritten[k]
+        key = None
+        if rw and flavor in ('panoc', 'zerofpr'):
+            key = KEY_RECOMP_PANOC if flavor == 'panoc' else KEY_RECOMP_ZEROFPR
+        elif eager_wm and (field in ('yhat', 'gradhat') or (field == 'eps' and (
+                cname == 'Ipopt' or (cname in ('ApproxKKT', 'ApproxKKT2') and cb.get('_gradhat_bad'))))):
+            key = KEY_EAGER_YHAT
+        full = f'callback {k} ({cb["status"]}): {msg}'
+        if key is None:
+            pending.insert(0, full)
+            raise Stop()
+        if pid is not None and KEY_OWNER[key] != pid:
+            bump('finding_of_other_property_' + key)
+        elif not any(isinstance(q, tuple) for q in pending):
+            pending.append((full, key))
+
+    def run():
+        for k, cb in enumerate(cbs):
+            last = k == len(cbs) - 1
+            x, xh, p, g = cb['x'], cb['xhat'], cb['p'], cb['grad_psi']
+            gam = cb['gamma']
+            if len(x) != n or len(xh) != n or len(p) != n or len(g) != n:
+                fail(k, cb, 'size', f'vector sizes {len(x)}, {len(xh)}, {len(p)}, {len(g)} ≠ n = {n}')
+                continue
+            if not all(math.isfinite(a) for a in x) or not (math.isfinite(gam) and gam > 0):
+                bump('consistency_skipped_nonfinite_x_or_gamma')
+                continue
+            psi, grad, _, Mpsi, Mg, _ = Q.at(x)
+            if max([Mpsi] + Mg) > Fr(10) ** 300:
+                bump('consistency_skipped_overflow_range')
+                continue
+            # ---- ψ(x), ∇ψ(x) --------------------------------------------------------------------------
+            v = cb['psi']
+            if v != v and (nan_inj or fixed_fista):
+                bump('psi_nan_injected_or_not_evaluated')
+            elif not math.isfinite(v) or abs(Fr(v) - psi) > Fr(REL) * Mpsi:
+                fail(k, cb, 'psi', f'reported ψ = {v!r}, ψ at the reported x is {float(psi)!r}')
+            else:
+                bump('psi_at_x_exact')
+            gbad = [i for i in range(n) if not math.isfinite(g[i]) or abs(Fr(g[i]) - grad[i]) > Fr(REL) * Mg[i]]
+            if gbad:
+                i = gbad[0]
+                fail(k, cb, 'grad', f'reported ∇ψ[{i}] = {g[i]!r}, ∇ψ at the reported x is {float(grad[i])!r}')
+            else:
+                bump('grad_at_x_exact')
+            # ---- x̂ = prox_γ(x − γ∇ψ(x)), p = x̂ − x ----------------------------------------------------
+            X = S.frv(x)
+            G = Fr(gam)
+            xh_ex = Q.prox(G, X, grad)
+            if not all(math.isfinite(a) for a in xh + p):
+                fail(k, cb, 'prox', f'x̂ / p not finite at finite x, γ (x̂={xh}, p={p})')
+                continue
+            ok = True
             for i in range(n):
-                if not math.isfinite(gh[i]) or abs(Fr(gh[i]) - gradh[i]) > Fr(REL) * Mgh[i]:
-                    return bad(f'reported ∇ψ(x̂)[{i}] = {gh[i]!r}, ∇ψ at the reported x̂ is {float(gradh[i])!r}')
-            bump('gradhat_exact')
-        # ---- ε: the documented criterion from exact quantities ----------------------------------------
-        e = cb['eps']
-        if e != e and nan_inj:
-            bump('eps_nan_injected')
-            continue
-        val, M, div = doc_criterion(cname, Q, G, X, S.frv(xh), grad, gradh, yh_ex)
-        tol = float(Fr(REL) * M) + REL * abs(val) + \
-            4 * _ulp(*(x + xh)) * (1.0 / gam if div else 1.0) * (n if cname.endswith('2') else 1)
-        tol += float(Fr(REL) * max(Mg + Mgh + [Fr(0)]))        # the gradients enter every formula but the γ-step ones
-        if not math.isfinite(e) or abs(e - val) > tol:
-            return bad(f'{cname}: reported ε = {e!r}, the documented formula from x − x̂, γ and the exact ∇ψ(x), '
-                       f'∇ψ(x̂), ŷ(x̂) gives {val!r} (tolerance {tol:.3g})')
-        bump('eps_documented_exact'); bump('eps_documented_exact_' + cname)
+                tol = 4 * Fr(_ulp(x[i], float(G * grad[i]), float(G * Q.lam[i]), Q.ex.Clb[i], Q.ex.Cub[i], xh[i])) \
+                    + G * Fr(REL) * Mg[i]
+                if abs(Fr(xh[i]) - xh_ex[i]) > tol:
+                    ok = False
+                    fail(k, cb, 'prox', f'reported x̂[{i}] = {xh[i]!r}, but prox_γ(x − γ∇ψ(x))[{i}] = '
+                                        f'{float(xh_ex[i])!r} at the reported x, γ = {gam!r} (tolerance {float(tol):.3g})')
+                    break
+                if abs(Fr(p[i]) - (xh_ex[i] - X[i])) > tol:
+                    ok = False
+                    fail(k, cb, 'prox', f'reported p[{i}] = {p[i]!r}, but prox_γ(x − γ∇ψ(x))[{i}] − x[{i}] = '
+                                        f'{float(xh_ex[i] - X[i])!r} at the reported x, γ = {gam!r} '
+                                        f'(tolerance {float(tol):.3g})')
+                    break
+            if ok:
+                bump('prox_step_exact')
+            # ---- ‖p‖², φγ ----------------------------------------------------------------------------
+            P = S.frv(p)
+            pTp = sum(a * a for a in P)
+            if not math.isfinite(cb['pTp']) or abs(Fr(cb['pTp']) - pTp) > 8 * (n + 4) * Fr(EPS) * pTp:
+                fail(k, cb, 'pTp', f'reported ‖p‖² = {cb["pTp"]!r}, the reported p has ‖p‖² = {float(pTp)!r}')
+            v = cb['fbe']
+            if v != v and (nan_inj or fixed_fista):
+                bump('fbe_nan_injected_or_not_evaluated')
+            else:
+                hx = Q.h(S.frv(xh))
+                gp = [grad[i] * P[i] for i in range(n)]
+                want = psi + hx + pTp / (2 * G) + sum(gp)
+                M = Mpsi + hx + pTp / (2 * G) + sum(abs(P[i]) * Mg[i] for i in range(n))
+                if not math.isfinite(v) or abs(Fr(v) - want) > (Fr(REL) + 8 * (n + 4) * Fr(EPS)) * M:
+                    fail(k, cb, 'fbe', f'reported φγ = {v!r}, but ψ(x) + h(x̂) + ‖p‖²/(2γ) + ∇ψ(x)ᵀp = {float(want)!r} '
+                                       f'(ψ, ∇ψ exact at the reported x; x̂, p, γ as reported)')
+                else:
+                    bump('fbe_exact')
+            # ---- ψ(x̂), ŷ(x̂), ∇ψ(x̂) ---------------------------------------------------------------------
+            psih, gradh, yh_ex, Mpsih, Mgh, Myh = Q.at(xh)
+            if max([Mpsih] + Mgh) > Fr(10) ** 300:
+                bump('consistency_skipped_overflow_range')
+                continue
+            v = cb['psi_hat']
+            if v != v and (nan_inj or fixed_fista):
+                bump('psihat_nan_injected_or_not_evaluated')
+            elif not math.isfinite(v) or abs(Fr(v) - psih) > Fr(REL) * Mpsih:
+                fail(k, cb, 'psihat', f'reported ψ(x̂) = {v!r}, ψ at the reported x̂ is {float(psih)!r}')
+            else:
+                bump('psihat_exact')
+            yh = cb.get('yhat') or []
+            if len(yh) == Q.ex.m and Q.ex.m:
+                ybad = [j for j in range(Q.ex.m)
+                        if not math.isfinite(yh[j]) or abs(Fr(yh[j]) - yh_ex[j]) > Fr(REL) * Myh[j]]
+                if ybad:
+                    j = ybad[0]
+                    fail(k, cb, 'yhat', f'reported ŷ[{j}] = {yh[j]!r}, ŷ at the reported x̂ is {float(yh_ex[j])!r}')
+                else:
+                    bump('yhat_exact')
+            gh = cb.get('grad_psi_hat') or []
+            if cb.get('have_gh') and len(gh) == n and (not final_only_gh or (last and need_gh)):
+                hb = [i for i in range(n)
+                      if not math.isfinite(gh[i]) or abs(Fr(gh[i]) - gradh[i]) > Fr(REL) * Mgh[i]]
+                if hb:
+                    i = hb[0]
+                    cb['_gradhat_bad'] = True
+                    fail(k, cb, 'gradhat', f'reported ∇ψ(x̂)[{i}] = {gh[i]!r}, ∇ψ at the reported x̂ is '
+                                           f'{float(gradh[i])!r}')
+                else:
+                    bump('gradhat_exact')
+            # ---- ε: the documented criterion from exact quantities ------------------------------------
+            e = cb['eps']
+            if e != e and nan_inj:
+                bump('eps_nan_injected')
+                continue
+            val, M, div = doc_criterion(cname, Q, G, X, S.frv(xh), grad, gradh, yh_ex)
+            tol = float(Fr(REL) * M) + REL * abs(val) + \
+                4 * _ulp(*(x + xh)) * (1.0 / gam if div else 1.0) * (n if cname.endswith('2') else 1)
+            tol += float(Fr(REL) * max(Mg + Mgh + [Fr(0)]))     # the gradients enter every formula but the γ-step ones
+            if cname == 'Ipopt' and Q.ex.m + n:
+                # s_d = max(100, (‖ŷ‖₁ + ‖w‖₁)/(2m+2n))/100 with w = (x̂ − ∇ψ(x̂)) − Π_C(x̂ − ∇ψ(x̂)): the subtraction
+                # cancels — its rounding error is a few ulps of |∇ψ(x̂)|, |x̂|, not of w
+                D, nn = doc_criterion.ipopt
+                if D > 0 and D / nn > 99:
+                    dD = sum(Fr(REL) * a for a in Myh) + \
+                        sum(Fr(REL) * Mgh[i] + 8 * Fr(_ulp(float(gradh[i]), xh[i], Q.ex.Clb[i], Q.ex.Cub[i]))
+                            for i in range(n))
+                    tol += abs(val) * float(dD / D) * 2
+            if not (abs(e - val) <= tol):
+                fail(k, cb, 'eps', f'{cname}: reported ε = {e!r}, the documented formula from x − x̂, γ and the exact '
+                                   f'∇ψ(x), ∇ψ(x̂), ŷ(x̂) gives {val!r} (tolerance {tol:.3g})')
+            else:
+                bump('eps_documented_exact'); bump('eps_documented_exact_' + cname)
+
+    try:
+        run()
+    except Stop:
+        pass
+    return pending[0] if pending else None
+
+
+def iterate_consistency(solver_name, op_line, out_line, pid, bump=lambda k, n=1: None):
+    """`consistency` on a harness output line of PANOC / ZeroFPR / PANTR / FISTA (any of the four layouts)."""
+    import c06_loop
+    import loops as LP
+    if solver_name not in ('panoc', 'zerofpr', 'pantr', 'fista') or not out_line.startswith('S ') or \
+            out_line.startswith('S exception'):
+        return None
+    op = S.Op.parse(op_line)
+    r = c06_loop.parse(solver_name, out_line)
+    rec = LP.recomputed(r) if solver_name in ('panoc', 'zerofpr') else []
+    fixed = solver_name == 'fista' and C.f2h(op.flt('Lmin', 1e-5)) == C.f2h(op.flt('Lmax', 1e20))
+    return consistency(solver_name, op, r['cbs'], pid=pid, bump=bump, rewritten=rec,
+                       final_only_gh=(solver_name == 'pantr'), fixed_fista=fixed)
+
+
+# ------------------------------------------------------------------ exceptions of the real solver (audit-2 #12)
+
+OCP_SUPPORTED = {'ProjGradNorm', 'ProjGradNorm2', 'ProjGradUnitNorm', 'ProjGradUnitNorm2', 'FPRNorm', 'FPRNorm2'}
+
+
+def expected_exception(solver_name, op_line, out_line):
+    """The op belongs to a class whose real code throws BY CONTRACT → name of the class, else None:
+      * PANOC-OCP with a stopping criterion it does not implement (Props/C06_Ocp.ocp_unsupported_throws);
+      * PANTR + NewtonTRDirection handed a trust radius that is not positive and finite: the provider's `apply` rejects it
+        (`Invalid trust radius`) — the radius is read from the recorded `dapply` event, i.e. from what the solver passed."""
+    op = S.Op.parse(op_line)
+    if solver_name == 'ocp':
+        crit = 'ApproxKKT' if op.nat('defaultcrit') else S.CRITS[op.nat('crit', 0)]
+        return None if crit in OCP_SUPPORTED else 'ocp_unsupported_criterion'
+    if solver_name == 'pantr' and op.get('dir') == 'newtontr':
+        da = [e for e in ev_list(out_line) if e and e[0] == 'dapply']
+        if da:
+            try:
+                (g, x, xh, p, gr, radius), _ = take('svvvvs', da[-1], 1)
+            except (ValueError, IndexError):
+                return None
+            if not (math.isfinite(radius) and radius > 0):
+                return 'pantr_newtontr_rejects_nonfinite_radius'
     return None
+
+
+def exception_monitor(solver_name, op_line, out_line, bump=lambda k, n=1: None):
+    """An exception thrown by the real solver where the property / the model expects a result is a violation, not
+    a skip; in a declared throwing class the outputs must be untouched.  → None | str"""
+    if not (out_line.startswith('S exception') or out_line.startswith('exception')):
+        return None
+    cls = expected_exception(solver_name, op_line, out_line)
+    o = next((sec.split() for sec in out_line.split(' ; ') if sec.startswith('O ')), None)
+    untouched = o is not None and o[1] == '1'
+    if cls:
+        bump('exception_' + cls)
+        if not untouched:
+            return f'the solver threw ({cls}) but modified its output arguments'
+        return None
+    return (f'the real solver threw an exception ({out_line.split(" ; ")[0][:80]}) on an op outside every throwing '
+            f'class; outputs {"untouched" if untouched else "MODIFIED"}')
+
+
+def own_findings_only(m, pid, bump=lambda k, n=1: None):
+    """A monitor reused under property `pid`: a keyed known finding of ANOTHER property (key `Cxx-…` / `Cxx:…`)
+    is counted, not reported (known findings are matched by (property, key))."""
+    if isinstance(m, tuple) and m[1] and m[1][:3] != pid and m[1][:1] == 'C' and m[1][1:3].isdigit():
+        bump('finding_of_other_property_' + m[1])
+        return None
+    return m
